@@ -8,7 +8,7 @@ import MindsVerif.Gen.SaPrec
 `Render.saNorm` / `saStmt` (hand model of `SqlalchemyRender`, tied by the correspondence stream and by
 the pins below) is what the rendered text denotes; `evalQuery` / `exec` is a small SQL semantics
 (NULLs, 3-valued logic, all join kinds, ORDER BY direction / NULLS, DISTINCT, LIMIT/OFFSET, set
-operations).  `SaParen.saParens` is SQLAlchemy's parenthesisation policy over the generated
+operations; CASE, CAST to integer types, IN lists; GROUP BY with count/sum/min/max, count(*) and HAVING).  `SaParen.saParens` is SQLAlchemy's parenthesisation policy over the generated
 `_PRECEDENCE` table, `EngineSqlite.table` the target engine's precedence (trusted).
 
 * `C06_full`           : the full statement on the typed fragment (not claimed: see `C06_partial`).
@@ -149,6 +149,22 @@ private def q1 : Query := .select
 example : okQ q1 = true := by decide +kernel
 example : okQ (.setop .union true q1 q1) = true := by decide +kernel
 example : raisesQ q1 = false ∧ evalQuery env0 dbL (saRender q1) = [[some 1, some 1]] := by decide +kernel
+/-- `SELECT a, count(*), sum(CASE WHEN NOT (a IN (1, 2)) THEN 0 ELSE CAST(a AS INT) END) FROM t
+     WHERE NOT (a IS NULL) GROUP BY a HAVING count(*) >= 1` -/
+private def q2 : Query := .gselect
+  { targets := [.plain (.col 0), .countStar,
+      .agg .sum (.ite (.not (.inl false (.col 0) (.tcons (.int 1) (.tcons (.int 2) .tnil)))) (.int 0) (.cast (.col 0)))]
+    from_ := .table 0
+    where_ := some (.not (.cmp .is (.col 0) .null))
+    groupBy := [.col 0]
+    having := some (.countStar, .ge, 1) }
+
+example : okQ q2 = true ∧ raisesQ q2 = false := by decide +kernel
+/-- `NOT (a IN (1))` is rendered `a NOT IN (1)` -/
+example : saNormE (.not (.inl false (.col 0) (.tcons (.int 1) .tnil))) =
+    .inl true (.col 0) (.tcons (.int 1) .tnil) := by decide
+example : evalQuery env0 dbL (saRender q2) = [[some 1, some 1, some 1]] := by decide +kernel
+
 example : okStmt (.update 0 [(0, .ar .add (.col 0) (.int 1))] (some (.not onEq))) = true := by
   decide +kernel
 
